@@ -88,7 +88,8 @@ SPECS = {
     quick=[S('P5', 2, M_P0, O_P, W), S('P3', 2, M_P, O_P | og('PLAN_REMOVE')), S('P6', 1, M_P, O_P | og('PLAN_REMOVE'), W), S('P5', 1, M_PG, O_P | og('REACT', 'PLAN_REMOVE'), W)],
     thorough=[S('P5', 2, M_PG, O_P | og('REACT', 'PLAN_REMOVE'), W, share=3), S('P3', 3, M_P, O_P | og('PLAN_REMOVE'), W), S('P6', 2, M_P, O_P | og('PLAN_REMOVE'), W), S('P1', 1, M_P0, O_P, W, share=4), S('P7', 1, M_P | mf('PAYLOAD'), O_P | og('PAYLOAD'), W), S('P2', 1, M_P0 | mf('PAYLOAD'), O_P | og('PAYLOAD', 'MANUAL'), W, share=2)]),
  'C09': dict(
-    quick=[S('P5', 2, M_P0, O_P, W), S('P3', 2, M_P, O_P | og('PLAN_REMOVE'), prefills=[0x00, 0xFF, 0xA5]), S('P6', 1, M_P, O_P | og('PLAN_REMOVE'), W), S('P5h', 1, M_P0, O_P | og('SERIAL', 'REPLAY'), W, prefills=[0xFF, 0xA5])],
+    quick=[S('P5', 2, M_P0, O_P, W), S('P3', 2, M_P, O_P | og('PLAN_REMOVE'), prefills=[0x00, 0xFF, 0xA5]), S('P6', 1, M_P, O_P | og('PLAN_REMOVE'), W), S('P5h', 1, M_P0, O_P | og('SERIAL', 'REPLAY'), W, prefills=[0xFF, 0xA5]),
+           S('P3', 1, M_P, O_P | og('PLAN_REMOVE'), variant='plain-O0', prefills=[0x00, 0xFF, 0xA5]), S('P5', 1, M_P0, O_P, variant='plain-O0', prefills=[0x00, 0xFF])],
     thorough=[S('P5', 2, M_PG, O_P | og('REACT', 'PLAN_REMOVE'), W, share=3, prefills=[0x00, 0xFF]), S('P3', 3, M_P, O_P | og('PLAN_REMOVE'), W, prefills=[0x00, 0xFF, 0xA5]), S('P6', 2, M_P, O_P | og('PLAN_REMOVE'), W), S('P1', 1, M_P0, O_P, W, share=4), S('P2', 1, M_P0 | mf('PAYLOAD'), O_P | og('PAYLOAD', 'MANUAL'), W, share=2), S('P5h', 1, M_P, O_P | og('SERIAL', 'REPLAY'), W)]),
  'C11': dict(
     quick=[S('T1', 2, M_T, O_T | og('REPLAY', 'COPY'), flags=['--replica']), S('T2', 2, M_TP, O_T | og('PAYLOAD', 'MANUAL', 'REPLAY', 'COPY', 'SERIAL'), flags=['--replica']), S('T3h', 3, M_T, O_T | og('REPLAY'), flags=['--replica']), S('T4', 1, M_T, O_T | og('REPLAY'), flags=['--replica'])],
@@ -99,7 +100,8 @@ SPECS = {
     thorough=[S('I1', 2, M_T, O_T, W), S('I2', 3, M_T, O_T, W), S('I3', 3, M_T, O_T), S('I4', 2, M_P0, O_P, W), S('I1', 1, M_T | mf('INJ_DECIDE'), O_T, W)]),
  'C17': dict(
     quick=[S('T1', 2, M_T, O_T | og('REPLAY', 'COPY', 'DESTROY'), flags=['--copy'], prefills=[0x00, 0xFF, 0xA5]), S('T2', 2, M_TP, O_TALL, flags=['--copy'], prefills=[0x00, 0xFF]),
-           S('P5', 1, M_P, O_PALL, W, ['--copy'], prefills=[0x00, 0xFF, 0xA5]), S('P5h', 1, M_P0, O_PALL, W, ['--copy'], prefills=[0xFF])],
+           S('P5', 1, M_P, O_PALL, W, ['--copy'], prefills=[0x00, 0xFF, 0xA5]), S('P5h', 1, M_P0, O_PALL, W, ['--copy'], prefills=[0xFF]),
+           S('T2', 1, M_TP, O_TALL, flags=['--copy'], variant='plain-O0', prefills=[0x00, 0xFF, 0xA5]), S('P3', 1, M_P, O_PALL, flags=['--copy'], variant='plain-O0', prefills=[0x00, 0xFF, 0xA5])],
     thorough=[S('T1', 3, M_T, O_T | og('REPLAY', 'COPY', 'DESTROY'), W, ['--copy', '--copy-dev=2'], prefills=[0x00, 0xFF, 0xA5]), S('T2', 3, M_TP, O_TALL, W, ['--copy', '--copy-dev=2'], prefills=[0x00, 0xFF, 0xA5]),
               S('T5', 2, M_TP, O_TALL, W, ['--copy', '--copy-dev=2'], prefills=[0x00, 0xFF]), S('P5', 2, M_P, O_PALL, W, ['--copy', '--copy-dev=2'], prefills=[0x00, 0xFF, 0xA5], share=3), S('P5h', 1, M_P, O_PALL, W, ['--copy'], prefills=[0x00, 0xFF]),
               S('P2', 1, M_P0 | mf('PAYLOAD'), O_PALL, W, ['--copy'], prefills=[0x00, 0xFF], share=2), S('T4', 2, M_T, O_TALL, W, ['--copy'])]),
